@@ -211,6 +211,14 @@ impl QGen {
                     open_group -= 1;
                     if open_group == 0 {
                         s.push(')');
+                        // quantified / captured groups
+                        if self.quant_ok && rng.chance(1, 3) {
+                            s.push_str(*rng.pick(&["+", "*", "?"]));
+                        }
+                        if rng.chance(1, 3) {
+                            let c = self.capture(rng);
+                            s.push_str(&c);
+                        }
                     }
                 }
                 if (i + 1 == nk || chosen == 3) && open_group == 0 && rng.chance(1, 7) {
@@ -586,6 +594,65 @@ fn gen_quant_alt(rng: &mut Rng, g: &QGen, named: &[&Node]) -> Option<String> {
     Some(format!("{s}{pc}\n"))
 }
 
+/// Family 7: a QUANTIFIED and/or CAPTURED GROUP of 2-3 adjacent children of a real parent:
+/// `(p ((a) (b))* @g)`, anchors inside the group / after it, captures on the group's items, neighbours.
+fn gen_quant_group(rng: &mut Rng, g: &QGen, named: &[&Node]) -> Option<String> {
+    let parents: Vec<&&Node> = named.iter().filter(|n| n.child_count() >= 2 && !n.is_error()).collect();
+    if parents.is_empty() {
+        return None;
+    }
+    let p = **rng.pick(&parents);
+    let mut cur = p.walk();
+    let kids: Vec<Node> = p.children(&mut cur).filter(|k| !k.is_error() && !k.is_missing()).collect();
+    if kids.len() < 2 {
+        return None;
+    }
+    let simple = |n: &Node| if n.is_named() { format!("({})", n.kind()) } else { quote(n.kind()) };
+    let len = if kids.len() >= 3 && rng.chance(1, 3) { 3 } else { 2 };
+    let start = rng.below(kids.len() - len + 1);
+    let mut s = format!("({}", p.kind());
+    if start > 0 && rng.chance(1, 3) {
+        s.push_str(&format!(" {}", simple(&kids[start - 1])));
+        if rng.chance(1, 3) {
+            s.push_str(&g.capture(rng));
+        }
+        if rng.chance(1, 4) {
+            s.push_str(" .");
+        }
+    }
+    s.push_str(" (");
+    for i in 0..len {
+        if i > 0 {
+            s.push(' ');
+            if rng.chance(1, 4) {
+                s.push_str(". ");
+            }
+        }
+        s.push_str(&simple(&kids[start + i]));
+        if rng.chance(1, 2) {
+            s.push_str(&g.capture(rng));
+        }
+    }
+    s.push(')');
+    let q = *rng.pick(&["", "?", "?", "*", "+"]);
+    s.push_str(q);
+    if q.is_empty() || rng.chance(1, 2) {
+        s.push_str(&g.capture(rng));
+    }
+    if start + len < kids.len() && rng.chance(1, 3) {
+        if rng.chance(1, 4) {
+            s.push_str(" .");
+        }
+        s.push_str(&format!(" {}", simple(&kids[start + len])));
+        if rng.chance(1, 3) {
+            s.push_str(&g.capture(rng));
+        }
+    }
+    s.push(')');
+    let pc = if rng.chance(1, 2) { g.capture(rng) } else { String::new() };
+    Some(format!("{s}{pc}\n"))
+}
+
 fn gen_query(rng: &mut Rng, g: &mut QGen, tree: &Tree) -> Option<String> {
     let nodes = all_nodes(tree);
     let named: Vec<&Node> = nodes.iter().filter(|n| n.is_named() && !n.is_missing()).collect();
@@ -614,7 +681,7 @@ fn gen_query(rng: &mut Rng, g: &mut QGen, tree: &Tree) -> Option<String> {
             }
         }
     }
-    match rng.below(10) {
+    match rng.below(12) {
         0 => {
             if let Some(q) = gen_negated_family(rng, g, &named) {
                 return Some(q);
@@ -637,6 +704,11 @@ fn gen_query(rng: &mut Rng, g: &mut QGen, tree: &Tree) -> Option<String> {
         }
         8 => {
             if let Some(q) = gen_quant_alt(rng, g, &named) {
+                return Some(q);
+            }
+        }
+        9 => {
+            if let Some(q) = gen_quant_group(rng, g, &named) {
                 return Some(q);
             }
         }
